@@ -28,9 +28,16 @@ namespace tbb {
 namespace detail {
 namespace d2 {
 
-template <typename QueueRep, typename Allocator>
-std::pair<bool, ticket_type> internal_try_pop_impl(void* dst, QueueRep& queue, Allocator& alloc ) {
+struct ignore_skipped_ticket {
+    void operator()(ticket_type) const {}
+};
+
+// on_skipped(ticket) is invoked for every ticket that was consumed without yielding an item
+// (the slot of a push that threw or was aborted).
+template <typename QueueRep, typename Allocator, typename OnSkipped = ignore_skipped_ticket>
+std::pair<bool, ticket_type> internal_try_pop_impl(void* dst, QueueRep& queue, Allocator& alloc, OnSkipped on_skipped = OnSkipped{} ) {
     ticket_type ticket{};
+    bool popped = false;
     do {
         // Basically, we need to read `head_counter` before `tail_counter`. To achieve it we build happens-before on `head_counter`
         ticket = queue.head_counter.load(std::memory_order_acquire);
@@ -42,7 +49,11 @@ std::pair<bool, ticket_type> internal_try_pop_impl(void* dst, QueueRep& queue, A
             // Queue had item with ticket k when we looked.  Attempt to get that item.
             // Another thread snatched the item, retry.
         } while (!queue.head_counter.compare_exchange_strong(ticket, ticket + 1));
-    } while (!queue.choose(ticket).pop(dst, ticket, queue, alloc));
+        popped = queue.choose(ticket).pop(dst, ticket, queue, alloc);
+        if (!popped) {
+            on_skipped(ticket);
+        }
+    } while (!popped);
     return { true, ticket };
 }
 
@@ -601,6 +612,7 @@ private:
         std::ptrdiff_t target;
         // This loop is a single pop operation; abort_counter should not be re-read inside
         unsigned old_abort_counter = my_abort_counter.load(std::memory_order_relaxed);
+        bool popped = false;
 
         do {
             target = my_queue_representation->head_counter++;
@@ -620,7 +632,13 @@ private:
                 });
             }
             __TBB_ASSERT(static_cast<std::ptrdiff_t>(my_queue_representation->tail_counter.load(std::memory_order_relaxed)) > target, nullptr);
-        } while (!my_queue_representation->choose(target).pop(dst, target, *my_queue_representation, my_allocator));
+            popped = my_queue_representation->choose(target).pop(dst, target, *my_queue_representation, my_allocator);
+            if (!popped) {
+                // The ticket belonged to a push that threw or was aborted. It still frees a slot:
+                // wake the producers that wait for it, otherwise they sleep while we wait for them.
+                r1::notify_bounded_queue_monitor(my_monitors, cbq_slots_avail_tag, target);
+            }
+        } while (!popped);
 
         r1::notify_bounded_queue_monitor(my_monitors, cbq_slots_avail_tag, target);
     }
@@ -628,7 +646,11 @@ private:
     bool internal_pop_if_present( void* dst ) {
         bool present{};
         ticket_type ticket{};
-        std::tie(present, ticket) = internal_try_pop_impl(dst, *my_queue_representation, my_allocator);
+        std::tie(present, ticket) = internal_try_pop_impl(dst, *my_queue_representation, my_allocator,
+            [this] (ticket_type skipped) {
+                // A skipped ticket (push that threw or was aborted) frees a slot as well.
+                r1::notify_bounded_queue_monitor(my_monitors, cbq_slots_avail_tag, skipped);
+            });
 
         if (present) {
             r1::notify_bounded_queue_monitor(my_monitors, cbq_slots_avail_tag, ticket);
